@@ -126,11 +126,13 @@ class EFLRItem:
 
         # all sets of this type in the logical file - an object is identified by type, origin, copy number and name,
         # so same-named items in differently named sets of one type must not get the same copy number
-        sets = list(getattr(self.parent, 'sibling_sets', {}).values())
+        registry = getattr(self.parent, 'sibling_sets', None)
+        sets = list((registry or {}).values())
         if not any(s is self.parent for s in sets):
             sets.append(self.parent)
 
-        items_with_the_same_name = [o for s in sets for o in s.get_all_eflr_items() if o.name == self.name]
+        # (only the items added through this logical file's registry: a set may also be listed there by a rejected call)
+        items_with_the_same_name = [o for s in sets for o in s.get_items_added_via(registry) if o.name == self.name]
         return len(items_with_the_same_name) - 1
 
     @classmethod
